@@ -1135,6 +1135,98 @@ def plan_history_probes(rng, tier, out):
                    % (ctor.replace('IMPL', "'pyfftw'"), shape, h), snippet)
 
 
+def ctor_default_probes(rng, tier, out):
+    """Constructor-default consistency: Inverse(space)(Forward(space)(x)) == x with default arguments
+    (only `impl` given), for the DFT and the FT, real and complex spaces."""
+    for cont, dt, shape, impl in itertools.product([False, True], ['float64', 'complex128'],
+                                                   [[8], [5], [4, 6], [3, 5]], ['numpy', 'pyfftw']):
+        nd = len(shape)
+        pre = 'Fourier' if cont else 'DiscreteFourier'
+        snippet = (_PRE + "sp = odl.uniform_discr(%r, %r, %r, dtype=%r)\n"
+                   "F = odl.trafos.%sTransform(sp, impl=%r)\nG = odl.trafos.%sTransformInverse(sp, impl=%r)\n"
+                   "x = (%s).astype(%r)\n"
+                   "z = np.asarray(G(F(x.copy())))\nobserved = float(np.abs(z - x).max()); expected = 0.0\n"
+                   "ok = (G.domain == F.range and G.range == F.domain and F.sign != G.sign\n"
+                   "      and observed <= 1e-9 * (1 + np.abs(x).max()))\n"
+                   % ([0.0] * nd, [float(n) / 2 for n in shape], shape, dt, pre, impl, pre, impl,
+                      _arr_src(rng, shape, dt.startswith('complex'), dt), dt))
+        _probe(out, 'ft-inverse-default-sign' if cont else 'ctor-default-inverse-DFT',
+               '%sTransformInverse(space)(%sTransform(space)(x)) == x with default arguments: shape %s dtype %s impl %s'
+               % (pre, pre, shape, dt, impl), snippet)
+
+
+def option_normalisation_probes(rng, tier, out):
+    """Options given where they do not apply, or in a non-canonical spelling, must be normalised away:
+    the operator equals the canonical one (same spaces, same values, round trip)."""
+    same = ("def same(A, B, x):\n"
+            "    a = np.asarray(A(x.copy())); b = np.asarray(B(x.copy()))\n"
+            "    return (A.domain == B.domain and A.range.shape == B.range.shape and A.halfcomplex == B.halfcomplex\n"
+            "            and a.shape == b.shape and float(np.abs(a - b).max()) <= 1e-10 * (1 + np.abs(b).max()))\n")
+    # halfcomplex=True on a complex space has no effect (documented)
+    for cls, shape, impl in itertools.product(['DiscreteFourierTransform', 'DiscreteFourierTransformInverse',
+                                               'FourierTransform', 'FourierTransformInverse'],
+                                              [[8], [5], [4, 6]], ['numpy', 'pyfftw']):
+        nd = len(shape)
+        sgn = ", sign='+'" if cls.endswith('Inverse') else ''
+        snippet = (_PRE + same + "sp = odl.uniform_discr(%r, %r, %r, dtype=complex)\n"
+                   "A = odl.trafos.%s(sp, halfcomplex=True, impl=%r%s)\nB = odl.trafos.%s(sp, halfcomplex=False, impl=%r%s)\n"
+                   "x = %s\nx = x.reshape(A.domain.shape)\n"
+                   "ok = A.halfcomplex is False and same(A, B, x) and same(A.inverse, B.inverse, np.asarray(B(x.copy())))\n"
+                   % ([0.0] * nd, [1.0] * nd, shape, cls, impl, sgn, cls, impl, sgn, _arr_src(rng, shape, True, 'complex128')))
+        _probe(out, 'dft-complex-halfcomplex-flag-range-shape' if cls.startswith('Discrete')
+               else 'option-normalisation-FT-halfcomplex-on-complex',
+               '%s(complex space, halfcomplex=True, impl=%s) is the halfcomplex=False operator (shape %s)'
+               % (cls, impl, shape), snippet)
+    # spellings: axes as int / negative / tuple / array, shift scalar vs list, truthy flags, impl capitalised
+    for cls, dt in itertools.product(['DiscreteFourierTransform', 'FourierTransform'], ['float64', 'complex128']):
+        hc = dt.startswith('float')
+        variants = [("axes=1", "axes=(1,)"), ("axes=-1", "axes=[1]"), ("axes=np.array([0, 1])", "axes=(0, 1)"),
+                    ("axes=(-2, -1)", "axes=(0, 1)"), ("halfcomplex=1", "halfcomplex=True"),
+                    ("halfcomplex=0", "halfcomplex=False"), ("impl='NumPy'", "impl='numpy'"),
+                    ("impl='PYFFTW'", "impl='pyfftw'")]
+        if cls == 'FourierTransform':
+            variants += [("shift=True", "shift=[True, True]"), ("shift=False, halfcomplex=False",
+                                                                "shift=(False, False), halfcomplex=False"),
+                         ("axes=1, shift=[True]", "axes=[1], shift=True")]
+        for a, b in variants:
+            if a == 'halfcomplex=1' and not hc:
+                continue        # complex space: covered by the dedicated probes above
+            base = '' if 'impl' in a else ", impl='numpy'"
+            snippet = (_PRE + same + "sp = odl.uniform_discr([0.0, 0.0], [1.0, 3.0], [4, 6], dtype=%r)\n"
+                       "A = odl.trafos.%s(sp, %s%s)\nB = odl.trafos.%s(sp, %s%s)\n"
+                       "x = (%s).astype(%r)\nok = same(A, B, x) and A.axes == B.axes and A.impl == B.impl\n"
+                       % (dt, cls, a, base, cls, b, base, _arr_src(rng, [4, 6], not hc, dt), dt))
+            _probe(out, 'option-normalisation-%s' % cls, '%s(%s) == %s(%s) on a %s space' % (cls, a, cls, b, dt),
+                   snippet)
+    # sign '+' with a half-complex forward transform is rejected cleanly (documented), also via the inverse class
+    for ctor in ["odl.trafos.DiscreteFourierTransform(sp, halfcomplex=True, sign='+')",
+                 "odl.trafos.DiscreteFourierTransformInverse(sp, halfcomplex=True, sign='-')",
+                 "odl.trafos.FourierTransform(sp, halfcomplex=True, sign='+')",
+                 "odl.trafos.FourierTransformInverse(sp, halfcomplex=True, sign='-')",
+                 "odl.trafos.FourierTransform(sp, sign='x')", "odl.trafos.DiscreteFourierTransform(sp, impl='fftw3')"]:
+        snippet = (_PRE + "sp = odl.uniform_discr(0, 1, 8)\ntry:\n    %s\n    ok = False\nexcept ValueError:\n    ok = True\n"
+                   % ctor)
+        _probe(out, 'option-rejection-clean', '%s raises ValueError at construction' % ctor, snippet)
+    # wavelets: options that do not apply / spellings
+    for a, b in [("pad_mode='PERIODIC'", "pad_mode='periodic'"), ("pad_mode='periodic', pad_const=3", "pad_mode='periodic'"),
+                 ("pad_mode='constant', pad_const=0.0", "pad_mode='constant'"), ("axes=1", "axes=(1,)"),
+                 ("axes=-1", "axes=(1,)"), ("axes=(-2, -1)", "axes=(0, 1)"), ("impl='PyWt'", "impl='pywt'"),
+                 ("nlevels=2.0", "nlevels=2")]:
+        snippet = (_PRE + "sp = odl.uniform_discr([0.0, 0.0], [1.0, 3.0], [8, 12])\n"
+                   "kw = dict(nlevels=2)\n"
+                   "A = odl.trafos.WaveletTransform(sp, 'db2', **dict(kw, %s))\nB = odl.trafos.WaveletTransform(sp, 'db2', **dict(kw, %s))\n"
+                   "x = sp.element(np.random.RandomState(%d).randint(-4, 5, (8, 12)).astype(float))\n"
+                   "a = np.asarray(A(x)); b = np.asarray(B(x))\n"
+                   "za = np.asarray(A.inverse(A(x))); observed = [float(np.abs(a - b).max()) if a.shape == b.shape else -1.0, float(np.abs(za - np.asarray(x)).max())]\n"
+                   "ok = a.shape == b.shape and observed[0] <= 1e-12 and observed[1] <= 1e-9 and A.range == B.range\n"
+                   % (a, b, rng.randint(0, 10 ** 6)))
+        _probe(out, 'option-normalisation-WaveletTransform', 'WaveletTransform(%s) == WaveletTransform(%s)' % (a, b), snippet)
+    snippet = (_PRE + "sp = odl.uniform_discr(0, 1, 8)\ntry:\n    odl.trafos.WaveletTransform(sp, 'db2', pad_mode='constant', pad_const=1.0)\n"
+               "    ok = False\nexcept ValueError:\n    ok = True\n")
+    _probe(out, 'option-rejection-clean', "WaveletTransform(pad_mode='constant', pad_const=1) raises ValueError (pywt back-end)",
+           snippet)
+
+
 def hc_inverse_input_probes(rng, tier, out):
     """The half-complex inverse leaves its input element alone and gives the same (right) result when the
     same element is passed again; 1-d sizes where FFTW's c2r algorithms differ, and 2-d."""
@@ -1169,6 +1261,8 @@ def probes(rng, tier):
     aliased_inplace_probes(rng, tier, out)
     call_history_probes(rng, tier, out)
     plan_history_probes(rng, tier, out)
+    ctor_default_probes(rng, tier, out)
+    option_normalisation_probes(rng, tier, out)
     hc_inverse_input_probes(rng, tier, out)
     wavelet_axes_adjoint_probes(rng, tier, out)
     fourier_adjoint_probes(rng, tier, out)
